@@ -277,6 +277,26 @@ def run_plan(plan):
       nontrivial = True
       cov["natural_returned_spd"] += 1
       cov["natural_input_indefinite"] += int(not pd_input)
+      if not pd_input and not (world.has_warning(wl, Warning, "did not converge") or
+                               world.has_warning(wl, Warning, "not converge")):
+        # the graphical-lasso input is indefinite, the solver did not report non-convergence and
+        # fit handed back a finite SPD matrix as the learned M: then the solver *could* produce
+        # one, i.e. M solves the documented problem (the L1 term can make it bounded) - a matrix
+        # that a positive definite witness beats by a wide margin is not what the solver produced
+        # for this problem.  (Wide margin: 1e-2 relative; converged results sit below 1e-4.)
+        lam = p["sparsity_param"]
+        fM = glasso.objective(P, M, lam)
+        try:
+          T1, f1, it1 = glasso.solve(P, lam, T0=M)
+        except Exception:
+          f1 = float("nan")
+        if np.isfinite(f1) and np.isfinite(fM):
+          cov["natural_indefinite_quiet_returns_judged"] += 1
+          if fM - f1 > 1e-2 * (1.0 + abs(f1)):
+            raise Violation("failure_clause", "indefinite_input_returned_non_minimiser",
+                            "the graphical-lasso input is indefinite, no non-convergence was reported and fit "
+                            "returned an SPD matrix with f(M)=%.6g, but a positive definite witness reaches %.6g: "
+                            "the returned matrix is not the solver's answer to the documented problem" % (fM, f1))
       return _done(events, violation, cov, inconclusive, shape, nontrivial)
     if not pd_input:
       raise Inconclusive("input_not_pd_despite_certificate")
